@@ -5,7 +5,7 @@ For every entry: fresh scratch copy of the repository, the edit applied, `tools/
 private copy of lean/ (first failing theorem recorded), and — for mutations — `./check <property>` against the scratch
 copy (verdict line recorded).  Nothing in /repo or in this clone's lean/ is touched.
 
-usage: tools/tiea_mutations.py <workdir> [-j N] [--only id,id] [--no-check] [--round 2|3]
+usage: tools/tiea_mutations.py <workdir> [-j N] [--only id,id] [--no-check] [--round 2|3|4]
 """
 import argparse
 import json
@@ -205,6 +205,20 @@ EDITS3 = [
 ]
 
 
+# ---------------------------------------------------------------- round 4 (Props.TieA4, docs/TRANSLATOR.md)
+EDITS4 = [
+    ('M71', 'mutation', 'C02', E, '        for i in range(9):\n            matrix[i][8] = 0x0', '        for i in range(8):\n            matrix[i][8] = 0x0',
+     'make_matrix: the format-area loop stops one module early'),
+    ('M72', 'mutation', 'C02', E, 'if is_square and width > 41:', 'if is_square and width > 45:',
+     'make_matrix: version areas reserved from version 8 on only'),
+    ('M73', 'mutation', 'C02', E, 'row[-11] = 0x0', 'row[-12] = 0x0', 'make_matrix: upper right version area one module to the left'),
+    ('M74', 'mutation', 'C02', E, 'row_eight[-i] = 0x0  # Upper right', 'row_eight[-i - 1] = 0x0  # Upper right',
+     'make_matrix: `-i` replaced by `-i - 1` (index 0 no longer reached through -0)'),
+    ('H71', 'harmless', 'C02', E, 'row_eight[i] = 0x0  # Upper bottom', 'matrix[8][i] = 0x0  # Upper bottom',
+     'make_matrix: the alias row_eight replaced by matrix[8] in one store'),
+]
+
+
 def special(eid, src):
     if eid in ('H51', 'H52', 'H55', 'H57', 'H58'):
         fn, pairs = {'H51': ('apply_mask', [('width_range', 'cols')]),
@@ -321,11 +335,11 @@ def main():
     ap.add_argument('-j', type=int, default=4)
     ap.add_argument('--only')
     ap.add_argument('--no-check', action='store_true')
-    ap.add_argument('--round', type=int, default=1, help='1: Props.TieA (EDITS), 2: Props.TieA2 (EDITS2), 3: Props.TieA3 (EDITS3)')
+    ap.add_argument('--round', type=int, default=1, help='1: Props.TieA (EDITS), 2: Props.TieA2 (EDITS2), 3: Props.TieA3 (EDITS3), 4: Props.TieA4 (EDITS4)')
     a = ap.parse_args()
     global TARGET
-    TARGET = {1: 'Props.TieA', 2: 'Props.TieA2', 3: 'Props.TieA3'}[a.round]
-    edits = [e for e in {1: EDITS, 2: EDITS2, 3: EDITS3}[a.round] if not a.only or e[0] in a.only.split(',')]
+    TARGET = {1: 'Props.TieA', 2: 'Props.TieA2', 3: 'Props.TieA3', 4: 'Props.TieA4'}[a.round]
+    edits = [e for e in {1: EDITS, 2: EDITS2, 3: EDITS3, 4: EDITS4}[a.round] if not a.only or e[0] in a.only.split(',')]
     os.makedirs(a.work, exist_ok=True)
     with ThreadPoolExecutor(a.j) as ex:
         results = list(ex.map(lambda e: one(e, a.work, not a.no_check), edits))
